@@ -593,7 +593,7 @@ pub fn prop() -> DiceProp {
         nightly: false,
         check_only: false,
         ndice: 160,
-        quick: (2500, 1),
+        quick: (10000, 1),
         thorough: (8000, 8),
         build: build_any,
         fixed: no_fixed,
